@@ -216,10 +216,13 @@ def coq_track_def(trk, legs):
     return f'Definition trk_{trk["id"]} : track FNum := @Build_track FNum [{ls}] {"true" if trk["allow"] else "false"}.\n'
 
 
+SFX = ''          # '_x' when the text regenerated from ground_track.py compiled: the correspondence then runs on it
+
+
 def coq_query(trk, q):
     if q['op'] == 'loc':
-        return f'@location FNum trk_{trk["id"]} {coq_float(q["d"])}'
-    return f'@step FNum trk_{trk["id"]} {coq_float(q["a"])} {coq_float(q["b"])}'
+        return f'@location{SFX} FNum trk_{trk["id"]} {coq_float(q["d"])}'
+    return f'@step{SFX} FNum trk_{trk["id"]} {coq_float(q["a"])} {coq_float(q["b"])}'
 
 
 def eval_point(trk, p):
@@ -408,6 +411,38 @@ def mission_from_query(o, d, stated_km):
     return Mission.from_query_result(qr)
 
 
+def extract_ground_track(chk: Check):
+    """regenerate GroundTrack's methods as Gallina (translator/c15_gt_extract.py), one named obligation per method, and
+    prove them equal to the model (link/C15_GtLink.v); the correspondence then evaluates the regenerated text itself"""
+    global SFX
+    from translator import c15_gt_extract
+    text, obs = c15_gt_extract.extract_ground_track(REPO)
+    for name, ok, msg in obs:
+        chk.obligations.append({'name': name, 'ok': ok})
+        if not ok:
+            chk.broken(name, msg)
+    SFX = ''
+    if text is None:
+        chk.obligations.append({'name': 'C15_GtLink.v:not-checked (extraction of ground_track.py failed)', 'ok': False})
+        return
+    if chk.coq_compile_gen('C15_GtExtracted', text) is None:
+        return
+    if chk.coq_link('C15_GtLink.v'):
+        SFX = '_x'
+    else:
+        # name the lemma at which the link stopped (the file is compiled top to bottom)
+        import re
+        det = chk.breaks[-1]['detail'] if chk.breaks else ''
+        m = re.search(r'C15_GtLink\.v", line (\d+)', det)
+        if m:
+            lines = (VERIF / 'coq/link/C15_GtLink.v').read_text().splitlines()[:int(m.group(1))]
+            thm = [ln.split()[1] for ln in lines if ln.startswith('Theorem ')]
+            if thm:
+                chk.notes['link_stopped_at'] = thm[-1]
+                chk.breaks[-1]['what'] = f'proof:C15_GtLink.v:{thm[-1]}'
+    chk.notes['correspondence_runs_on'] = 'text regenerated from ground_track.py' if SFX else 'hand-written model'
+
+
 def check_tracks(chk: Check, tracks):
     """tracks: list of dict(track, queries or None -> generated from the implementation's index)"""
     geod = fresh_geod()
@@ -429,13 +464,13 @@ def check_tracks(chk: Check, tracks):
             continue
         if trk.get('queries') is None:
             trk['queries'] = gen_queries(chk.rng, index, trk.get('nq', 10))
-        exprs.append(f'@index FNum trk_{trk["id"]}')
+        exprs.append(f'@index{SFX} FNum trk_{trk["id"]}')
         meta.append((trk, None))
         for q in trk['queries']:
             impl_out[(trk['id'], json.dumps(q, sort_keys=True))] = impl_query(gt, q)
             exprs.append(coq_query(trk, q))
             meta.append((trk, q))
-    hdr = HEADER + ''.join(defs)
+    hdr = HEADER + ('From Gen Require Import C15_GtExtracted.\n' if SFX else '') + ''.join(defs)
     vals = chk.coq_eval(hdr, exprs, shard=250)
     # second round: azimuth normalisation of the raw oracle answers, inside Coq
     scripts, raws, slot = [], [], []
@@ -599,7 +634,7 @@ def check_missions(chk: Check, variant, pairs):
                 impl.append(['error', type(e).__name__, str(e)[:200]])
     finally:
         teardown_config()
-    exch = True if variant is None else variant
+    exch = False if variant is None else variant      # undetermined: compare with pyproj's own order
     b_ = 'true' if exch else 'false'
     exprs = [f'@gc_distance FNum {b_} {coq_float(a[0])} {coq_float(a[1])} {coq_float(b[0])} {coq_float(b[1])}'
              for _, _, _, a, b in cases]
@@ -697,6 +732,7 @@ def run(chk: Check):
                         'independent oracle) constrains an overstep']
     chk.coq_props('props/C15_Props.v')
     variant = extract(chk)
+    extract_ground_track(chk)
     chk.notes['gc_distance_argument_order'] = {True: '(lat, lon, lat, lon) — F13 present', False: '(lon, lat, lon, lat) — pyproj order',
                                                None: 'undetermined'}[variant]
     check_laws(chk)
@@ -722,6 +758,7 @@ def run(chk: Check):
 def replay(chk: Check, rp):
     chk.coq_props('props/C15_Props.v')
     variant = extract(chk)
+    extract_ground_track(chk)
     case = rp.get('case') or {}
     if 'track' in case:
         t = dict(case['track'])
